@@ -6,12 +6,34 @@ import (
 	"path/filepath"
 	"sort"
 	"strings"
+	"time"
 
 	"kvassverif/cyc"
 )
 
 func writeFile(p *Pod, text string) error {
 	return os.WriteFile(filepath.Join(p.Dir, "prometheus.env.yaml"), []byte(text), 0o644)
+}
+
+// trackEmpty keeps the harness' own record of since when each pod scrapes nothing.
+func (w *World) trackEmpty(now time.Time) {
+	for _, p := range w.CL.AllPods() {
+		if !p.Running {
+			continue
+		}
+		st, err := p.SC.GetStatus()
+		if err != nil {
+			continue
+		}
+		if len(st) == 0 {
+			if p.EmptySince == nil {
+				t := now
+				p.EmptySince = &t
+			}
+		} else {
+			p.EmptySince = nil
+		}
+	}
 }
 
 // converged evaluates the C03 end-state predicate on the real sidecars.
@@ -183,7 +205,58 @@ func (w *World) cycleInvariants(c *cycleRec, tr *cyc.CycleTrace, phase string) {
 				}
 			}
 		}
-		// C05, closed loop: when a source copy is dropped, another holder has really scraped >= 3 times
+		// remember how many scrapes a pod had made when one of its copies was marked in_transfer
+		for _, s := range rep.Shards {
+			if s.Post == nil || !s.PostDelivered {
+				continue
+			}
+			for h, t := range s.Post {
+				if st, had := s.Rep[h]; had && st.TargetState == "" && t.TargetState == "in_transfer" {
+					w.markAt[s.ID+"/"+w.addrOf[h]] = w.scrapeFrom[w.addrOf[h]][s.ID]
+				}
+			}
+		}
+		// C07, closed loop: a removed shard really was empty for longer than max-idle-time
+		if e.Property == "C07" && count <= sc.Opt.MaxShard {
+			for _, x := range rep.Scale {
+				for i := int(x.Value); i >= 0 && i < len(rep.Shards); i++ {
+					p := w.podByName(rep.Shards[i].ID)
+					if p == nil || !p.Running {
+						continue
+					}
+					if p.EmptySince == nil {
+						e.Violate("world-removes-shard-in-use", "", "cycle %d: %d shards requested although %s still scrapes targets (by the sidecar's own status)", c.N, x.Value, p.Name)
+					} else if x.Now.Sub(*p.EmptySince) <= sc.Opt.MaxIdleTime || sc.Opt.MaxIdleTime == 0 {
+						e.Violate("world-removes-shard-not-idle-long-enough", "", "cycle %d: %d shards requested, removing %s which has been without targets for only %s (max-idle-time %s)", c.N, x.Value, p.Name, x.Now.Sub(*p.EmptySince), sc.Opt.MaxIdleTime)
+					}
+				}
+			}
+		}
+		// C05, closed loop: when a source copy is dropped, the source has made three scrapes since
+		// the move began and another holder has made three
+		if e.Property == "C05" {
+			for _, s := range rep.Shards {
+				if !s.InSync || s.Post == nil || !s.PostDelivered {
+					continue
+				}
+				for h, st := range s.Rep {
+					if st.TargetState != "in_transfer" {
+						continue
+					}
+					if _, still := s.Post[h]; still {
+						continue
+					}
+					if _, act := c.Active[h]; !act {
+						continue
+					}
+					addr := w.addrOf[h]
+					since := w.scrapeFrom[addr][s.ID] - w.markAt[s.ID+"/"+addr]
+					if since < 3 {
+						e.Violate("world-handover-source", "", "cycle %d: in_transfer copy of %s dropped from %s, whose proxy has completed only %d scrapes of it since the move began", c.N, addr, s.ID, since)
+					}
+				}
+			}
+		}
 		if e.Property == "C05" {
 			for _, s := range rep.Shards {
 				if !s.InSync || s.Post == nil || !s.PostDelivered {
